@@ -14,7 +14,7 @@ type C09 struct {
 	nt bool
 }
 
-func init() { RegisterChecker("C09", func() Checker { return &C09{} }) }
+func init()               { RegisterChecker("C09", func() Checker { return &C09{} }) }
 func (c *C09) ID() string { return "C09" }
 
 // stateFeatures names boundary features present in the exported state; used
